@@ -289,7 +289,8 @@ func (o *txnOracle) c04() []Violation {
 	}
 	writes, _ := o.effects()
 	for _, t := range o.hist {
-		own := map[int32]int32{} // own latest token per key
+		own := map[int32]int32{}   // own latest token per key
+		ownDef := map[int32]bool{} // ... and whether the write certainly happened (see below)
 		ownDel := map[int32]bool{}
 		for _, s := range t.Stmts {
 			if s.Status != "ok" {
@@ -302,7 +303,29 @@ func (o *txnOracle) c04() []Violation {
 					own[k] = s.St.Token
 					if s.St.Kind == "insert" {
 						delete(ownDel, k)
+						ownDef[k] = true
+						continue
 					}
+					// an UPDATE writes the row only if it exists in the transaction's view: that is certain
+					// when the row was present by every commit that returned before the statement was
+					// invoked and no other transaction's commit of a change to it was in flight during the
+					// statement (a delete whose commit had begun may or may not be seen)
+					if ownDef[k] {
+						continue // already written by this transaction: it holds the row's X lock
+					}
+					present := int(k) <= o.rows
+					ambiguous := false
+					for _, c := range writes[k] {
+						if c.txn == t.ID {
+							continue
+						}
+						if c.endRet < s.Call {
+							present = !c.del
+						} else if c.endCall <= s.Ret {
+							ambiguous = true
+						}
+					}
+					ownDef[k] = present && !ambiguous
 				}
 			case "delete":
 				for _, k := range s.St.keys(o.rows) {
@@ -347,7 +370,7 @@ func (o *txnOracle) c04() []Violation {
 							continue
 						}
 					}
-					if _, ok := own[k]; ok {
+					if _, ok := own[k]; ok && ownDef[k] {
 						add("own-write-not-visible", fmt.Sprintf("txn %d %s returned (%d,%d) although the txn itself wrote %d", t.ID, s.St.SQL(), k, v, own[k]))
 						continue
 					}
@@ -373,17 +396,9 @@ func (o *txnOracle) c04() []Violation {
 						continue
 					}
 					if _, ok := own[k]; ok {
-						if int(k) <= o.rows || true {
-							// own insert/update of an existing row must be visible
-							present := int(k) <= o.rows
-							for _, c := range writes[k] {
-								if c.endRet < s.Call {
-									present = !c.del
-								}
-							}
-							if present {
-								add("own-write-not-visible", fmt.Sprintf("txn %d %s does not return key %d which the txn itself wrote", t.ID, s.St.SQL(), k))
-							}
+						// own insert / own update of a row that certainly existed must be visible
+						if ownDef[k] {
+							add("own-write-not-visible", fmt.Sprintf("txn %d %s does not return key %d which the txn itself wrote", t.ID, s.St.SQL(), k))
 						}
 						continue
 					}
